@@ -562,6 +562,41 @@ func runRfc7798Form(donl bool, f []Tok) Outcome {
 			fail("the %d-byte truncation of the well-formed RFC 7798 payload %x (minimal structure %d bytes) was accepted", k, wire, rfc7798MinLen(donl, f))
 		}
 	}
+	if tokInt(f[0]) == 1 {
+		// an aggregation packet cut anywhere behind its second unit: on the boundary of a unit the prefix is
+		// itself an aggregation packet (of fewer units) and is accepted with exactly those units; everywhere
+		// else a unit is cut short and the packet must be refused, not delivered without it
+		boundary := map[int]int{}
+		pos := rfc7798MinLen(donl, f)
+		boundary[pos] = 1
+		for i, u := range tokList(f[5])[1:] {
+			pos += len(tokBytes(tokList(u)[1])) + 2
+			if donl {
+				pos++
+			}
+			boundary[pos] = i + 2
+		}
+		for k := rfc7798MinLen(donl, f); k < len(wire); k++ {
+			t := &codecs.H265Packet{}
+			t.WithDONL(donl)
+			var err error
+			if pn, msg := catch(func() { _, err = t.Unmarshal(append([]byte{}, wire[:k]...)) }); pn {
+				fail("H265Packet.Unmarshal panicked on the %d-byte truncation of %x: %s", k, wire, msg)
+				continue
+			}
+			units, onBoundary := boundary[k]
+			switch {
+			case !onBoundary && err == nil:
+				fail("the %d-byte truncation of the aggregation packet %x, which cuts a unit short, was accepted", k, wire)
+			case onBoundary && err != nil:
+				fail("the %d-byte prefix of %x, itself an aggregation packet of %d further units, was rejected: %v", k, wire, units, err)
+			case onBoundary:
+				if ap, ok := t.Packet().(*codecs.H265AggregationPacket); !ok || len(ap.OtherUnits()) != units {
+					fail("the %d-byte prefix of %x did not decode to %d further units", k, wire, units)
+				}
+			}
+		}
+	}
 	d := &codecs.H265Packet{}
 	d.WithDONL(donl)
 	if _, err := d.Unmarshal(append([]byte{}, wire...)); err != nil {
@@ -738,7 +773,11 @@ func init() {
 					// the same truncations through the model: every prefix up to two bytes beyond the minimal structure
 					w := rfc7798Encode(wd, form)
 					ps := TList{}
-					for k := 0; k <= rfc7798MinLen(wd, form)+2 && k <= len(w); k++ {
+					lim := rfc7798MinLen(wd, form) + 2
+					if tokInt(form[0]) == 1 {
+						lim = len(w) // an aggregation packet: every prefix (cuts inside later units, D34)
+					}
+					for k := 0; k <= lim && k <= len(w); k++ {
 						ps = append(ps, TBytes(w[:k]))
 					}
 					emit(1402, TI(b2i(wd)), ps)
